@@ -866,6 +866,8 @@ def unplace(x):
     if isinstance(x, str):
         return re.sub(r"^/invalid/(exec|workspace)/path/of/.*$", "/invalid", x)
     if isinstance(x, list):
+        if len(x) == 2 and isinstance(x[1], str) and x[1].startswith("/invalid/"):
+            return ["(placeholder)", "/invalid"]        # (package name, pseudo path) in BOB_ALL_PATHS
         return [unplace(i) for i in x]
     return x
 
